@@ -820,6 +820,26 @@ def rule_bottomup(ctx):
     good = ctx.base_call_bbs(ret) == {xc.bb} and len(ret) == 1
     R.ob('BU-exec-ret', key, good, 'execute-and-schedule returns the output of the execution' if good else 'returned value: %s' % es.describe_origins(ret), ctx.where(es), props=('C03', 'C17'))
 
+    # who may execute a task in a bottom-up build: execute-and-schedule (which then examines the task's dependants), or make-consistent for a
+    # task that has no output yet (a new task has no dependants to re-examine). Any other caller executes a task whose readers / requirers
+    # are never checked against its new output.
+    bu_sites = [sb for sb, _ in roles.exec_sites if sb.impl_self and 'BottomUpContext' in sb.impl_self]
+    n_x = 0
+    for cbdy in F.bodies.values():
+        if cbdy.crate != 'pie' or cbdy.is_test_code():
+            continue
+        for c in cbdy.calls.values():
+            if cbdy.blocks[c.bb]['cleanup'] or not any(is_callee(ctx, c, sb) for sb in bu_sites):
+                continue
+            n_x += 1
+            ok_ = cbdy.id == bu['exec_and_sched'].id
+            if not ok_ and cbdy.id == bu['bu_make'].id:
+                ok_ = any(gd.kind == 'enum' and gd.variants() == frozenset(['None']) and any(is_callee(ctx, sc, roles.get_out) for sc in gd.subject_calls())
+                          for gd in cbdy.edges_required_for(c.bb))
+            R.ob('BU-exec-callers', '%s->%s' % (cbdy.path, c.name), ok_, 'bottom-up execution happens in execute-and-schedule, or for a task without output' if ok_
+                 else 'a task is executed in a bottom-up build outside execute-and-schedule: the tasks that read what it writes / require it are not examined against the new output',
+                 ctx.where(cbdy, c.bb), props=('C03',))
+    R.floor('BU-exec-callers', 'callers of the bottom-up execution sites', n_x, 2, props=('C03',))
     # who may queue a task: every Queue::add in the core sits behind a negative verdict of a dependency check in its function
     # ("executed only if one of its recorded dependencies is inconsistent"); an unconditional add executes unaffected tasks
     n_add = 0
